@@ -82,6 +82,10 @@ def mk_hist(hc, **extra):
     bins = d["bins"]; ndim = len(bins)
     kinds = d.get("kinds", ["static"] * ndim)
     binnings = [mk_binning(b, k, b2(i), adaptive=b2(d.get("adaptive", "F"))) for b, k, i in zip(bins, kinds, d["incl"])]
+    for k, fa in enumerate(d.get("fixed_args", [])):      # a FixedWidthBinning given by (width, count, start) as written
+        if fa != "none":
+            from physt import binnings as B
+            binnings[k] = B.FixedWidthBinning(bin_width=float(fa[0]), bin_count=int(fa[1]), min=float(fa[2]), adaptive=b2(d.get("adaptive", "F")))
     dtype = np.dtype(d.get("dtype", "float64"))
     shape = [len(b) for b in bins]
     freq = np.array([float(x) for x in d["freq"]]).astype(dtype).reshape(shape)
